@@ -407,6 +407,8 @@ def _stream_sink(body):
         raise Unsupported("StreamSink: no attribute decides whether the stream is flushed")
     fl = attrs[guard]
 
+    depth = [0]
+
     def kern(node):
         """the decision as a Bool kernel over what can be observed of a stream (p0 = the constructor's
         parameter): has a callable flush, reports line_buffering, reports write_through"""
@@ -414,6 +416,8 @@ def _stream_sink(body):
         atoms = {
             "callable(getattr(p0, 'flush', None))": "hasFlush",
             "hasattr(p0, 'flush')": "hasFlush",
+            "callable(inspect.getattr_static(p0, 'flush', None))": "hasStaticFlush",
+            "callable(getattr_static(p0, 'flush', None))": "hasStaticFlush",
             "getattr(p0, 'line_buffering', False)": "lineBuffering",
             "p0.line_buffering": "lineBuffering",
             "getattr(p0, 'write_through', False)": "writeThrough",
@@ -421,6 +425,18 @@ def _stream_sink(body):
         }
         if src in atoms:
             return atoms[src]
+        # a module-level private helper whose body is a single `return <expr>`: followed one level deep
+        if isinstance(node, ast.Call) and isinstance(node.func, ast.Name) and not node.keywords:
+            h = [f for f in tree.body if isinstance(f, ast.FunctionDef) and f.name == node.func.id]
+            if len(h) == 1 and len(_strip_doc(h[0].body)) == 1 and isinstance(_strip_doc(h[0].body)[0], ast.Return) \
+                    and len(h[0].args.args) == len(node.args) and not h[0].args.kwonlyargs and depth[0] == 0:
+                import copy
+                sub = {a.arg: v for a, v in zip(h[0].args.args, node.args)}
+                depth[0] += 1
+                try:
+                    return kern(_Rename(sub).visit(copy.deepcopy(_strip_doc(h[0].body)[0].value)))
+                finally:
+                    depth[0] -= 1
         if isinstance(node, ast.Constant) and isinstance(node.value, bool):
             return "true" if node.value else "false"
         if isinstance(node, ast.BoolOp):
@@ -432,7 +448,7 @@ def _stream_sink(body):
 
     body.append("/-- `self.%s = %s` (p0 = the stream) as a function of what the stream exposes -/"
                 % (guard, _u(fl).replace("-/", "- /")))
-    body.append("def flushableOf (hasFlush lineBuffering writeThrough : Bool) : Bool := %s" % kern(fl))
+    body.append("def flushableOf (hasFlush hasStaticFlush lineBuffering writeThrough : Bool) : Bool := %s" % kern(fl))
     body.append("/-- the statements of `StreamSink.write` -/")
     body.append("def streamWriteOps : List StreamOp := [%s]" % ", ".join(ops))
 
@@ -459,8 +475,10 @@ def _handler(body):
             ops.append("(%s, .returnIfNotOwner)" % tag)
         elif src == "self._queue.put(None)":
             ops.append("(%s, .putSentinel)" % tag)
-        elif src == "self._thread.join()":
+        elif src == "self._thread.join()" or src == "self._thread.join(None)" or src == "self._thread.join(timeout=None)":
             ops.append("(%s, .joinWorker)" % tag)
+        elif isinstance(st, ast.Expr) and isinstance(st.value, ast.Call) and _u(st.value.func) == "self._thread.join":
+            ops.append("(%s, .joinWorkerTimeout)" % tag)      # a bounded wait
         elif src == "self._queue.close()" or _single_call_if(M, st, "hasattr(self._queue, 'close')", "self._queue.close()"):
             ops.append("(%s, .closeQueue)" % tag)
         elif src == "self._sink.stop()":
